@@ -101,6 +101,13 @@ func (s *Shared) c13Cases(tier string) []SchedCase {
 			return
 		}
 		plans := s.Plans(doc, op, d, false, false)
+		var rel []Plan
+		for _, p := range extraPlans {
+			if planTouches(op.Text, p) {
+				rel = append(rel, p) // (a plan about positions the operation does not select is the fault-free run again)
+			}
+		}
+		extraPlans = rel
 		plans = append(plans, extraPlans...)
 		b := bound
 		if secondary || handOnly {
@@ -171,6 +178,33 @@ func (s *Shared) c13Cases(tier string) []SchedCase {
 		add(op, []Plan{planOf("t.name", "error"), planOf("t.req", "error")})
 	}
 	return out
+}
+
+// planTouches: every position of the plan names fields the operation text selects.
+func planTouches(text string, p Plan) bool {
+	for k := range p {
+		k = strings.TrimLeft(k, "@%~$")
+		for _, seg := range strings.Split(k, ".") {
+			if i := strings.IndexByte(seg, '['); i >= 0 {
+				seg = seg[:i]
+			}
+			if seg == "" {
+				continue
+			}
+			found := false
+			for _, tok := range strings.FieldsFunc(text, func(r rune) bool {
+				return !(r == '_' || r >= 'a' && r <= 'z' || r >= 'A' && r <= 'Z' || r >= '0' && r <= '9')
+			}) {
+				if tok == seg {
+					found = true
+				}
+			}
+			if !found {
+				return false
+			}
+		}
+	}
+	return true
 }
 
 // lookup finds the value at a response path ("a.b[1].c") in an ordered value.
